@@ -4,3 +4,4 @@ import Ops.Transforms
 import Ops.Quant
 import Ops.CornerTable
 import Ops.Metadata
+import Ops.BitCoders
